@@ -582,6 +582,74 @@ impl Env {
         1
     }
 
+    /// C06: the proven peer i answers its outstanding GetBlockFilterHashes for the FIRST block of a check point interval
+    /// with a chain of hashes over substituted filters (every block gets the filter of a block without activity) that
+    /// ends exactly at the number of the next check point -- whose finalized value the chain does not reach --, and
+    /// serves those filters afterwards (`forged_filters`).  Returns the block whose filter is used.
+    pub fn forged_interval_hashes(&mut self, sim: &mut Sim, i: usize, interval: u64) -> Option<usize> {
+        use ckb_types::utilities::calc_filter_hash;
+        let p = self.peers[i].idx;
+        let start = sim.inbox.iter().find_map(|s| if s.peer == p { sim::filter_request(s).filter(|(k, _)| *k == "hashes").map(|(_, st)| st) } else { None })?;
+        let server = self.peers[i].server.clone();
+        let chain = sim.chain.chain_of(server.tip);
+        let tipn = sim.chain.blocks[server.tip].num;
+        if start == 0 || (start - 1) % interval != 0 || start + interval - 1 > tipn {
+            return None;
+        }
+        // only inside the finalized range (the cached-hashes path of the handler)
+        let (final_idx, _) = sim.client().storage.get_last_check_point();
+        if start + interval - 1 > final_idx as u64 * interval {
+            return None;
+        }
+        // a block of the chain with nothing but its cellbase
+        let quiet = chain.iter().cloned().find(|b| *b != 0 && sim.chain.blocks[*b].tx_ids.len() == 1)?;
+        let data = sim.chain.blocks[quiet].filter.clone();
+        let parent = sim.chain.blocks[chain[start as usize - 1]].filter_hash.clone();
+        let mut h = parent.clone();
+        let mut v = Vec::new();
+        for _ in 0..interval {
+            h = calc_filter_hash(&h, &data).pack();
+            v.push(h.clone());
+        }
+        let _ = sim.take_request(p, |s| sim::filter_request(s).filter(|(k, _)| *k == "hashes"));
+        let maps = crate::verif::project::Maps::new(&sim.chain);
+        let content = packed::BlockFilterHashes::new_builder().start_number(start.pack()).parent_block_filter_hash(parent.clone()).block_filter_hashes(v.clone().pack()).build();
+        let m = packed::BlockFilterMessage::new_builder().set(content).build();
+        let args = json!({"p": pname(p), "start": start, "n": v.len(), "tip": server.tip + 1, "kind": "mut:forged-interval",
+            "parent": maps.fid(&parent), "hs": v.iter().map(|h| maps.fid(h)).collect::<Vec<_>>()});
+        sim.step("FilterHashes", args, |c| c.deliver(Proto::Filter, p, m.as_bytes()));
+        Some(quiet)
+    }
+
+    /// The filters that go with `forged_interval_hashes`: for the outstanding GetBlockFilters of peer i, every block of
+    /// the batch with the filter of block `quiet` (the block hashes are the true ones).
+    pub fn forged_filters(&mut self, sim: &mut Sim, i: usize, quiet: usize) -> bool {
+        let p = self.peers[i].idx;
+        let start = match sim.inbox.iter().find_map(|s| if s.peer == p { sim::filter_request(s).filter(|(k, _)| *k == "filters").map(|(_, st)| st) } else { None }) {
+            Some(s) => s,
+            None => return false,
+        };
+        let server = self.peers[i].server.clone();
+        let chain = sim.chain.chain_of(server.tip);
+        let tipn = sim.chain.blocks[server.tip].num;
+        if start > tipn {
+            return false;
+        }
+        let end = std::cmp::min(tipn, start + server.filters_batch as u64 - 1);
+        let ids: Vec<usize> = (start..=end).map(|n| chain[n as usize]).collect();
+        let content = packed::BlockFilters::new_builder()
+            .start_number(start.pack())
+            .block_hashes(ids.iter().map(|id| sim.chain.blocks[*id].header.hash()).collect::<Vec<_>>().pack())
+            .filters(packed::BytesVec::new_builder().set(ids.iter().map(|_| sim.chain.blocks[quiet].filter.clone()).collect()).build())
+            .build();
+        let m = packed::BlockFilterMessage::new_builder().set(content).build();
+        let _ = sim.take_request(p, |s| sim::filter_request(s).filter(|(k, _)| *k == "filters"));
+        let args = json!({"p": pname(p), "start": start, "n": ids.len(), "tip": server.tip + 1, "kind": "mut:forged-interval",
+            "fs": ids.iter().map(|_| quiet + 1).collect::<Vec<_>>(), "hs": ids.iter().map(|b| b + 1).collect::<Vec<_>>()});
+        sim.step("Filters", args, |c| c.deliver(Proto::Filter, p, m.as_bytes()));
+        true
+    }
+
     /// An unsolicited honest BlockFilters batch starting right after the filtered number.
     pub fn unsolicited_filters(&mut self, sim: &mut Sim, i: usize) {
         let p = self.peers[i].idx;
